@@ -1,5 +1,145 @@
-"""Checker validation battery (placeholder until the mutant tables are filled in)."""
+"""Checker validation battery (thorough tier): static analysis of mutated scratch copies of the CURRENT tree.
+
+* text mutants  (sa/selftest_mutants.py): single-point edits, each must be refuted by a rule of its property;
+* seeded mutants (/verif/seeded/*/patch.diff): the sub-agent and reverse-fix patches, applied with patch(1);
+* twins: behaviour-preserving rewrites that must stay silent.
+
+Nothing is executed from the repository: every variant is parsed and analysed exactly like the real tree.
+Scratch copies live under /dev/shm (fallback: tempfile.gettempdir()) and are removed in a finally block.
+A miss is reported as SELFTEST-MISS (exit 2), never as a property violation.
+"""
+from __future__ import annotations
+
+import json
+import os
+import shutil
+import subprocess
+import tempfile
+from concurrent.futures import ProcessPoolExecutor
+
+from .report import VIOLATION, VERIF, apply_known
+
+
+def _scratch_base():
+    base = "/dev/shm" if os.path.isdir("/dev/shm") and os.access("/dev/shm", os.W_OK) else tempfile.gettempdir()
+    return tempfile.mkdtemp(prefix="verif-selftest-", dir=base)
+
+
+def _copy_tree(src_root: str, dst_root: str):
+    shutil.copytree(os.path.join(src_root, "pyairtouch"), os.path.join(dst_root, "pyairtouch"), ignore=shutil.ignore_patterns("__pycache__"))
+
+
+def _analyse(pid: str, root: str):
+    from .main import analyse
+
+    ctx, obs = analyse(pid, root, "quick")
+    apply_known(pid, obs)
+    viol = [o for o in obs if o.verdict == VIOLATION]
+    if ctx.analysis_error and not viol:
+        from .model import AnalysisError
+
+        raise AnalysisError(ctx.analysis_error)
+    return viol
+
+
+def _run_variant(job):
+    """job = dict(kind, id, props, root, file/old/new | patch, expect). Returns dict result."""
+    base = _scratch_base()
+    try:
+        _copy_tree(job["root"], base)
+        if job["kind"] == "patch":
+            r = subprocess.run(["patch", "-p1", "-s", "-f", "-i", job["patch"]], cwd=base, capture_output=True, text=True)
+            if r.returncode != 0:
+                return {"id": job["id"], "status": "skipped", "why": "patch does not apply to the current tree"}
+        else:
+            path = os.path.join(base, job["file"])
+            if not os.path.exists(path):
+                return {"id": job["id"], "status": "skipped", "why": "file vanished"}
+            src = open(path, encoding="utf-8").read()
+            if src.count(job["old"]) < 1:
+                return {"id": job["id"], "status": "skipped", "why": "anchor text not present in the current tree"}
+            src = src.replace(job["old"], job["new"]) if job.get("every") else src.replace(job["old"], job["new"], 1)
+            try:
+                compile(src, path, "exec")
+            except SyntaxError as ex:
+                return {"id": job["id"], "status": "skipped", "why": f"variant does not compile: {ex}"}
+            open(path, "w", encoding="utf-8").write(src)
+        out = {"id": job["id"], "status": "ok", "hits": {}}
+        from .model import AnalysisError
+
+        for pid in job["props"]:
+            try:
+                v = _analyse(pid, base)
+                out["hits"][pid] = [f"{o.rule} {o.construct}" for o in v][:5]
+            except AnalysisError as ex:
+                out["hits"][pid] = [f"ANALYSIS-ERROR {ex}"]
+            except Exception as ex:  # checker crash
+                out["hits"][pid] = [f"CHECKER-CRASH {type(ex).__name__}: {ex}"]
+        return out
+    finally:
+        shutil.rmtree(base, ignore_errors=True)
+
+
+def jobs_for(pids, root):
+    from . import selftest_mutants as M
+
+    jobs = []
+    for mu in M.MUTANTS:
+        if mu["prop"] in pids:
+            jobs.append({"kind": "text", "id": mu["id"], "props": [mu["prop"]], "root": root, "file": mu["file"], "old": mu["old"], "new": mu["new"], "expect": "violation"})
+    for tw in M.TWINS:
+        props = [p for p in tw["props"] if p in pids]
+        if props:
+            jobs.append({"kind": "text", "id": tw["id"], "props": props, "root": root, "file": tw["file"], "old": tw["old"], "new": tw["new"], "every": tw.get("every", False), "expect": "silent"})
+    sd = os.path.join(VERIF, "seeded")
+    if os.path.isdir(sd):
+        for name in sorted(os.listdir(sd)):
+            meta = os.path.join(sd, name, "meta.json")
+            patch = os.path.join(sd, name, "patch.diff")
+            if not (os.path.exists(meta) and os.path.exists(patch)):
+                continue
+            prop = json.load(open(meta)).get("property")
+            if prop in pids:
+                jobs.append({"kind": "patch", "id": f"seeded/{name}", "props": [prop], "root": root, "patch": patch, "expect": "violation"})
+    return jobs
 
 
 def run(pids, root, verbose=False):
-    return {"summary": {"mutants": 0, "caught": 0, "skipped": 0, "twins": 0, "twins_silent": 0}, "failures": []}
+    jobs = jobs_for(set(pids), root)
+    results = []
+    workers = min(16, max(1, len(jobs)))
+    if jobs:
+        with ProcessPoolExecutor(max_workers=workers) as ex:
+            results = list(ex.map(_run_variant, jobs))
+    failures = []
+    caught = skipped = twins = silent = 0
+    per_prop = {}
+    for job, res in zip(jobs, results):
+        if res["status"] == "skipped":
+            skipped += 1
+            if verbose:
+                print(f"  skipped {job['id']}: {res['why']}")
+            continue
+        if job["expect"] == "violation":
+            pid = job["props"][0]
+            hits = [h for h in res["hits"].get(pid, []) if not h.startswith(("ANALYSIS-ERROR", "CHECKER-CRASH"))]
+            per_prop.setdefault(pid, [0, 0])
+            per_prop[pid][1] += 1
+            if hits:
+                caught += 1
+                per_prop[pid][0] += 1
+                if verbose:
+                    print(f"  caught  {job['id']}: {hits[0]}")
+            else:
+                failures.append(f"{job['id']} (property {pid}) not refuted: {res['hits'].get(pid)}")
+        else:
+            twins += 1
+            noisy = {p: h for p, h in res["hits"].items() if h}
+            if noisy:
+                failures.append(f"twin {job['id']} raised an alarm: {noisy}")
+            else:
+                silent += 1
+                if verbose:
+                    print(f"  silent  {job['id']}")
+    summary = {"mutants": sum(1 for j in jobs if j["expect"] == "violation"), "caught": caught, "skipped": skipped, "twins": twins, "twins_silent": silent, "per_property": {k: f"{v[0]}/{v[1]}" for k, v in sorted(per_prop.items())}}
+    return {"summary": summary, "failures": failures}
